@@ -1,9 +1,18 @@
 (* Properties_C08 -- duplicate detection.  Statements only.
-   PARTIAL: proved for the pairwise strategy (<= LINEAR_THRESHOLD elements, and the fallback of
-   the other two); the sort-based and hash-based strategies are tied by correspondence and the
-   oracle only (their theorems need the equivalence/hash-consistency results of C07). *)
-From Coq Require Import ZArith NArith List Bool.
-From Verif Require Import Lanes Common Values Equality EqBasics.
+   Proved: the pairwise strategy (<= LINEAR_THRESHOLD elements, and the fallback of the other two) finds exactly
+   the equal pairs; the HASH-TABLE strategy (open addressing, linear probing, power-of-two table) gives, for every
+   list of fewer than 2^64 elements and whatever their hashes are, exactly the pairwise verdict on the same elements
+   with their hashes cached, and never takes its "table full" fallback (C08_hash_strategy).
+   The SORT-BASED strategy gives exactly the pairwise verdict for ANY sorting function whose result is a
+   comparator-ordered permutation of its input (qsort is libc's), on the values it is entered with: scalars fresh from
+   the reader (no cached hash; names and strings shorter than 2^31 bytes, the comparator truncates length differences
+   to int) -- the comparator is proved to be a total preorder whose zero set is equality on these values, floats
+   included (C08_sort_strategy); the insertion sort of the executable model meets the assumption (C08_sort_strategy_model).
+   PARTIAL: that caching a hash does not change an equality answer (needed to compare the hash strategy's verdict with
+   the uncached pairwise one) is C07's history independence, proved on the sequence fragment only. *)
+From Coq Require Import ZArith NArith List Bool Permutation Sorted.
+From Coq.Strings Require Import Byte.
+From Verif Require Import Lanes Common Values Equality EqBasics Configs FlagProofs HashDup SortDup.
 Import ListNotations.
 
 Section C08.
@@ -25,8 +34,38 @@ Proof. exact (has_duplicates_small c xe xh sort). Qed.
 Theorem C08_sorted_gate : forall l,
   forallb sort_comparable l = false -> dup_sorted c xe sort l = dup_linear c xe l.
 Proof. exact (dup_sorted_gate c xe sort). Qed.
+
+(* the hash-table strategy: same verdict as comparing all pairs of the (hash-cached) elements *)
+Theorem C08_hash_strategy : forall l, (Z.of_nat (List.length l) < 2 ^ 64)%Z ->
+  fst (dup_hash c xe xh sort l) = dup_linear c xe (map (hash_cache c xh) l).
+Proof. exact (dup_hash_correct c xe xh sort). Qed.
 End C08.
 
+(* the sort-based strategy, for any sorting function that returns a comparator-ordered permutation *)
+Theorem C08_sort_strategy : forall (c : cfg) xe (sort : list node -> list node) l, In c all_cfgs ->
+  Forall sdom l -> Permutation (sort l) l -> StronglySorted (fun a b => (compare_nodes c a b <= 0)%Z) (sort l) ->
+  dup_sorted c xe sort l = dup_linear c xe l.
+Proof. intros c xe sort l Hc. apply dup_sorted_correct. now apply tags_inj_all. Qed.
+(* and for the sorting function of the executable model *)
+Theorem C08_sort_strategy_model : forall (c : cfg) xe l, In c all_cfgs -> Forall sdom l ->
+  dup_sorted c xe (isort c) l = dup_linear c xe l.
+Proof. exact dup_sorted_model. Qed.
+(* the comparator on these values: zero exactly on equal values *)
+Theorem C08_comparator_zero_is_equality : forall (c : cfg) xe a b, In c all_cfgs -> sdom a -> sdom b ->
+  (equal c xe a b = true <-> compare_nodes c a b = 0%Z).
+Proof. intros c xe a b Hc. apply cmp_eq_model. now apply tags_inj_all. Qed.
+
+(* non-vacuity: a list the theorem applies to, with a duplicate the strategy must find: (2.5 "b" :k 7 -0.0 "b") *)
+Example C08_sort_example :
+  let l := [mk (VFloat (SpecFloat.S754_finite false 5 (-1))) 0 1; mk (VString ["b"%byte] false None) 2 3;
+            mk (VKeyword None ["k"%byte]) 4 5; mk (VInt 7) 6 7; mk (VFloat (SpecFloat.S754_zero true)) 8 9;
+            mk (VString ["b"%byte] false None) 10 11] in
+  forallb sort_comparable l = true /\ dup_sorted cfg00 (fun _ => None) (isort cfg00) l = true.
+Proof. vm_compute. split; reflexivity. Qed.
+
+Print Assumptions C08_sort_strategy.
+Print Assumptions C08_sort_strategy_model.
+Print Assumptions C08_hash_strategy.
 Print Assumptions C08_linear.
 Print Assumptions C08_small.
 Print Assumptions C08_sorted_gate.
